@@ -32,7 +32,8 @@ def scenarios(pid, tier, seed):
         return (spawn_scen.fam_alloc(seed, big) + spawn_scen.fam_path(seed, big)
                 + spawn_scen.fam_faults(seed, False)[::3] + spawn_scen.fam_wiring(seed, False)[::7])
     if pid == "C18":
-        return spawn_scen.fam_signals(seed, big)
+        # (also through the PATH search: attempts that fail before the one that starts the program)
+        return spawn_scen.fam_signals(seed, big) + spawn_scen.fam_path(seed, False)[::3]
     raise ToolError("no spawn scenarios for " + pid)
 
 
